@@ -230,9 +230,9 @@ Lemma call_fixed st ft xArgs xRets : Variadic ft = false ->
   call st ft xArgs xRets = callReady st ft xArgs xRets.
 Proof. intros H. unfold call. now rewrite H. Qed.
 
-Lemma call_variadic lo fixed extra ft xRets : Variadic ft = true -> slen fixed = Args ft - 1 ->
+Lemma call_variadic_gen lo fixed extra ft xRets : Variadic ft = true -> slen fixed = Args ft - 1 ->
   call (lo ++ fixed ++ extra) ft (slen fixed + slen extra) xRets =
-  callReady (lo ++ fixed ++ [pack (Type_value (VariadicType ft)) extra]) ft (Args ft) xRets.
+  callReady (lo ++ fixed ++ [variadic_cell (VariadicType ft) (slen extra) extra]) ft (Args ft) xRets.
 Proof.
   intros HV HF. unfold call. rewrite HV. cbn [negb].
   pose proof (slen_nonneg lo). pose proof (slen_nonneg fixed). pose proof (slen_nonneg extra).
@@ -245,6 +245,37 @@ Proof.
   rewrite to_nat_slen, firstn_len_app, skipn_len_app.
   replace (slen fixed + slen extra - slen extra + 1) with (Args ft) by lia.
   now rewrite <- app_assoc.
+Qed.
+
+Lemma variadic_cell_some vtype extra : 1 <= slen extra ->
+  variadic_cell vtype (slen extra) extra = pack (Type_value vtype) extra.
+Proof. intros H. unfold variadic_cell. destruct (slen extra =? 0) eqn:E; [lia | reflexivity]. Qed.
+
+(* the callee's view of the variadic parameter through Value.data(): the surplus arguments assigned to
+   the element type, whether they were packed into a slice or (none) the parameter is the nil slice *)
+Lemma data_variadic_cell vtype extra :
+  data (variadic_cell vtype (slen extra) extra) = Good (map (assign_cell (Type_value vtype)) extra).
+Proof.
+  unfold variadic_cell. destruct (slen extra =? 0) eqn:E; [|reflexivity].
+  destruct extra; [reflexivity|]. exfalso. apply Z.eqb_eq in E. unfold slen in E. cbn [length] in E. lia.
+Qed.
+
+(* at least one surplus argument: they become ONE slice of the declared element type *)
+Lemma call_variadic lo fixed extra ft xRets : Variadic ft = true -> slen fixed = Args ft - 1 ->
+  1 <= slen extra ->
+  call (lo ++ fixed ++ extra) ft (slen fixed + slen extra) xRets =
+  callReady (lo ++ fixed ++ [pack (Type_value (VariadicType ft)) extra]) ft (Args ft) xRets.
+Proof.
+  intros HV HF HE. rewrite call_variadic_gen by assumption. now rewrite variadic_cell_some.
+Qed.
+
+(* no surplus argument: the variadic parameter is the nil slice of the declared variadic type *)
+Lemma call_variadic_none lo fixed ft xRets : Variadic ft = true -> slen fixed = Args ft - 1 ->
+  call (lo ++ fixed) ft (slen fixed) xRets =
+  callReady (lo ++ fixed ++ [CVal (mkValue (VariadicType ft) (Zn 0) PNone)]) ft (Args ft) xRets.
+Proof.
+  intros HV HF. pose proof (call_variadic_gen lo fixed [] ft xRets HV HF) as G.
+  rewrite app_nil_r in G. change (slen []) with 0 in G. rewrite Z.add_0_r in G. exact G.
 Qed.
 
 Lemma call_variadic_few st ft xArgs xRets : Variadic ft = true -> xArgs < Args ft - 1 ->
@@ -286,12 +317,9 @@ Proof.
   intros HF Hx. pose proof (slen_nonneg fixed).
   destruct (native_fields argc rets (NNV f)) as (HA & _ & HT & HV); [lia|].
   assert (0 <? argc = true) as Hpos by lia. rewrite Hpos in HV.
-  rewrite call_variadic by (try assumption; lia). rewrite HT, type_value_0.
-  rewrite app_assoc.
-  replace (lo ++ fixed) with (lo ++ fixed) by reflexivity.
-  rewrite <- app_assoc.
-  rewrite (callReady_frame _ (lift (NNV f)) lo (fixed ++ [pack 0 extra]) xRets).
-  - cbn [lift]. rewrite pop_snoc. reflexivity.
+  rewrite call_variadic_gen by (try assumption; lia). rewrite HT.
+  rewrite (callReady_frame _ (lift (NNV f)) lo (fixed ++ [variadic_cell 0 (slen extra) extra]) xRets).
+  - cbn [lift]. rewrite pop_snoc, data_variadic_cell, type_value_0. reflexivity.
   - rewrite HA. apply native_frame.
   - rewrite slen_app, slen_one. lia.
   - assumption.
@@ -416,33 +444,52 @@ Proof.
   - rewrite !callReady_args; auto; lia.
 Qed.
 
-(* variadic methods: the surplus arguments are packed with the declared element type of f *)
-Lemma method_call_variadic_packed obj f lo fixed extra xRets : Variadic f = true -> 2 <= Args f ->
+(* variadic methods: the variadic parameter is built with the declared variadic type of f *)
+Lemma method_call_variadic_gen obj f lo fixed extra xRets : Variadic f = true -> 2 <= Args f ->
   slen fixed = Args f - 2 ->
   call (lo ++ fixed ++ extra) (newMethod obj f) (slen fixed + slen extra) xRets =
-  callReady (lo ++ [obj] ++ fixed ++ [pack (Type_value (VariadicType f)) extra]) f (Args f) xRets.
+  callReady (lo ++ [obj] ++ fixed ++ [variadic_cell (VariadicType f) (slen extra) extra]) f (Args f) xRets.
 Proof.
   intros HV H2 HF. destruct (method_fields obj f) as (HA & _ & HV' & HT); [lia | auto |].
-  rewrite call_variadic by (rewrite ?HA; try congruence; lia).
+  rewrite call_variadic_gen by (rewrite ?HA; try congruence; lia).
   rewrite HT.
   apply callReady_ext.
   - rewrite HA, !Z.eqb_refl. reflexivity.
-  - rewrite (method_body obj f lo (fixed ++ [pack (Type_value (VariadicType f)) extra])).
+  - rewrite (method_body obj f lo (fixed ++ [variadic_cell (VariadicType f) (slen extra) extra])).
     + reflexivity.
     + rewrite slen_app, slen_one. lia.
   - rewrite HA, !slen_app, !slen_one. lia.
 Qed.
 
+(* at least one surplus argument: packed into one slice of the declared element type of f *)
+Lemma method_call_variadic_packed obj f lo fixed extra xRets : Variadic f = true -> 2 <= Args f ->
+  slen fixed = Args f - 2 -> 1 <= slen extra ->
+  call (lo ++ fixed ++ extra) (newMethod obj f) (slen fixed + slen extra) xRets =
+  callReady (lo ++ [obj] ++ fixed ++ [pack (Type_value (VariadicType f)) extra]) f (Args f) xRets.
+Proof.
+  intros HV H2 HF HE. rewrite method_call_variadic_gen by assumption. now rewrite variadic_cell_some.
+Qed.
+
+(* no surplus argument: the nil slice of the declared variadic type of f *)
+Lemma method_call_variadic_none obj f lo fixed xRets : Variadic f = true -> 2 <= Args f ->
+  slen fixed = Args f - 2 ->
+  call (lo ++ fixed) (newMethod obj f) (slen fixed) xRets =
+  callReady (lo ++ [obj] ++ fixed ++ [CVal (mkValue (VariadicType f) (Zn 0) PNone)]) f (Args f) xRets.
+Proof.
+  intros HV H2 HF. pose proof (method_call_variadic_gen obj f lo fixed [] xRets HV H2 HF) as G.
+  rewrite app_nil_r in G. change (slen []) with 0 in G. rewrite Z.add_0_r in G. exact G.
+Qed.
+
 Lemma func_call_variadic obj f lo fixed extra xRets : Variadic f = true -> 2 <= Args f ->
   slen fixed = Args f - 2 ->
   call (lo ++ [obj] ++ fixed ++ extra) f (slen fixed + slen extra + 1) xRets =
-  callReady (lo ++ [obj] ++ fixed ++ [pack (Type_value (VariadicType f)) extra]) f (Args f) xRets.
+  callReady (lo ++ [obj] ++ fixed ++ [variadic_cell (VariadicType f) (slen extra) extra]) f (Args f) xRets.
 Proof.
   intros HV H2 HF.
   replace (lo ++ [obj] ++ fixed ++ extra) with (lo ++ ([obj] ++ fixed) ++ extra) by now rewrite <- !app_assoc.
   replace (slen fixed + slen extra + 1) with (slen ([obj] ++ fixed) + slen extra)
     by (rewrite slen_app, slen_one; lia).
-  rewrite call_variadic; [now rewrite <- !app_assoc | assumption | rewrite slen_app, slen_one; lia].
+  rewrite call_variadic_gen; [now rewrite <- !app_assoc | assumption | rewrite slen_app, slen_one; lia].
 Qed.
 
 (* a variadic method packs exactly as the function does *)
@@ -451,7 +498,7 @@ Lemma method_call_variadic obj f lo fixed extra xRets : Variadic f = true -> 2 <
   call (lo ++ fixed ++ extra) (newMethod obj f) (slen fixed + slen extra) xRets =
   call (lo ++ [obj] ++ fixed ++ extra) f (slen fixed + slen extra + 1) xRets.
 Proof.
-  intros HV H2 HF. now rewrite method_call_variadic_packed, func_call_variadic.
+  intros HV H2 HF. now rewrite method_call_variadic_gen, func_call_variadic.
 Qed.
 
 (* ---- script functions (mkFunc) ---------------------------------------------------------------- *)
